@@ -77,7 +77,10 @@ InitTick == /\ \E e0 \in 0..MaxEpoch, a \in Alphas :
             /\ calls = <<>> /\ lastEv = "Init"
             /\ ain = NoAdm /\ aout = "none"
 
-\* handleNewEpoch -> processNewEpoch: SetEpochCounter(ev.EpochNumber()); never sends newEpoch
+\* handleNewEpoch -> processNewEpoch: SetEpochCounter(ev.EpochNumber()); never sends newEpoch.
+\* fail = which chain read inside processNewEpoch fails (epoch duration, tx height, network map): the epoch
+\* counter follows the notification in every case - a failed read must not keep the node in the old epoch.
+Fails == {"none", "netmap", "height", "duration"}
 DoNewEpoch(e) ==
   /\ counter' = e
   /\ chainEpoch' = e
@@ -98,7 +101,7 @@ DoSetAlpha(a) ==
   /\ lastEv' = "SetAlpha"
   /\ UNCHANGED <<counter, chainEpoch>>
 
-TickEvents == [ev : {"NewEpoch"}, e : 0..MaxEpoch] \cup [ev : {"Tick"}] \cup [ev : {"SetAlpha"}, a : Alphas]
+TickEvents == [ev : {"NewEpoch"}, e : 0..MaxEpoch, fail : Fails] \cup [ev : {"Tick"}] \cup [ev : {"SetAlpha"}, a : Alphas]
 
 Step(e) == CASE e.ev = "NewEpoch" -> DoNewEpoch(e.e)
              [] e.ev = "Tick" -> DoTick
